@@ -101,6 +101,30 @@ func ruleStalenessAtoms(c *Ctx) {
 	found := hasComparison(preF, "<", resultOfCall(getTerm), resultOfCall(getTerm))
 	found0 := hasComparison(preF, ">", resultOfCall(getTerm), isConstInt(0))
 	c.Check(found && found0, rule, "term > 0 ∧ term < cached term in "+fnName(preF), "a reported raft term behind the cached one is stale", P.pos(preF.Pos()), "")
+	// acceptance requires every same-id test to have passed (a weakened or re-scoped test still "occurs")
+	getRel := F(P.Method("server/core", "BasicCluster", "getRelevantRegions"))
+	getEpoch := F(P.Method("server/core", "RegionInfo", "GetRegionEpoch"))
+	var regionParam ssa.Value
+	if len(preF.Params) >= 2 {
+		regionParam = preF.Params[1]
+	}
+	isRegion := func(v ssa.Value) bool { return v != nil && regionParam != nil && sameVal(v, regionParam) }
+	isOrigin := func(v ssa.Value) bool { return v != nil && derivesFrom(v, resultOfCall(getRel), 3) }
+	on := func(getter Callee, who valPred) valPred {
+		return func(v ssa.Value) bool {
+			cl, _ := callOf(v)
+			return cl != nil && getter.Match(cl.Common()) && who(callRecv(cl.Common()))
+		}
+	}
+	epochOf := func(who valPred) valPred { return on(getEpoch, who) }
+	gNil := guardRel("no cached region of this id", "==", isOrigin, isNilConst)
+	gVer := guardRel("version >= cached version", ">=", on(getVer, epochOf(isRegion)), on(getVer, epochOf(isOrigin)))
+	gConf := guardRel("conf version >= cached conf version", ">=", on(getConf, epochOf(isRegion)), on(getConf, epochOf(isOrigin)))
+	gT0 := guardRel("term not reported (<= 0)", "<=", on(getTerm, isRegion), isConstInt(0))
+	gT1 := guardRel("term >= cached term", ">=", on(getTerm, isRegion), on(getTerm, isOrigin))
+	c.need(rule, preF, "acceptance (nil error)", func(x ssa.Instruction) bool { r, ok := x.(*ssa.Return); return ok && retIsNilErr(r) },
+		[]Ev{gNil, gVer, gConf, gT0, gT1}, func(h []bool) bool { return h[0] || (h[1] && h[2] && (h[3] || h[4])) },
+		"a region is accepted only if no region of its id is cached, or its version and conf version are not behind the cached ones and its raft term is unreported or not behind")
 	// the overlap test runs for every overlap: inside a loop over the overlaps returned by getRelevantRegions
 	n := 0
 	for _, b := range preF.Blocks {
@@ -244,6 +268,7 @@ func init() {
 		c.Group("C06/checked-put", "a region enters the served cache only right after PreCheckPutRegion succeeded on the same region, inside the cluster write lock on the heartbeat path", func() { ruleCheckedPut(c) })
 		c.Group("C06/staleness-atoms", "the precheck rejects on version vs every overlap, and on term/version/conf-version vs the same-id region; the overlap scan is skipped only for a byte-identical range", func() { ruleStalenessAtoms(c) })
 		c.Group("C06/displaced-removed", "regions displaced by an accepted region are removed from the cache at once and deleted from storage by the caller", func() { ruleDisplacedRemoved(c) })
+		c.Group("C06/backend-selection", "(shared with C17) displaced regions are deleted from the backend region records are saved to and loaded from", func() { ruleRegionBackendSelection(c) })
 		c.Group("C06/stale-answered", "a stale heartbeat changes nothing and is answered with an error", func() { ruleStaleAnswered(c) })
 	})
 }
